@@ -237,10 +237,21 @@ func GRPCMatrix() *m.Design {
 	reset(0)
 	meta.Result = obj(fld("ok", prim(m.Boolean), true))
 
+	// one array user type (validated itself, elements validated) as payload and
+	// as result of the same method: the same message travels in both directions
+	// (the element type is reached through this message only: whatever the generators
+	// collect for it comes from this one request/response pair)
+	reset(0)
+	nameA, qtyA := prim(m.String), prim(m.Int)
+	nameA.V, qtyA.V = &m.Validation{MinLen: ip(1)}, &m.Validation{Min: fp(1)}
+	entry := &m.UserType{Name: "Entry", Var: "ventry", Attr: obj(fld("name", nameA, true), fld("qty", qtyA, true), fld("tags", arr(prim(m.String)), false))}
+	lines := &m.UserType{Name: "Entries", Var: "ventries", Attr: &m.Attr{Type: &m.Type{Kind: m.Array, Elem: m.UserRef("Entry")}, V: &m.Validation{MinLen: ip(1), MaxLen: ip(3)}}}
+	batch := &m.Method{Name: "batch", GRPC: &m.GRPCEndpoint{}, Payload: m.UserRef("Entries"), Result: m.UserRef("Entries")}
+
 	health := &m.Service{Name: "health", HasHTTP: true, Methods: []*m.Method{{Name: "ping", HTTP: &m.HTTPEndpoint{Routes: []m.Route{{Verb: "GET", Path: "/ping"}}}}}}
 	return &m.Design{API: m.API{Name: "grpcmatrix", Title: "gRPC matrix", Server: true},
-		Types:    []*m.UserType{uuid, score, addr, line, order},
-		Services: []*m.Service{{Name: "grpcmatrix", HasGRPC: true, Methods: []*m.Method{kinds, aliases, place, meta}}, health},
+		Types:    []*m.UserType{uuid, score, addr, line, order, entry, lines},
+		Services: []*m.Service{{Name: "grpcmatrix", HasGRPC: true, Methods: []*m.Method{kinds, aliases, place, meta, batch}}, health},
 		Features: []string{"fixed-design:grpc-matrix", "alias", "alias-array-element", "alias-map-key", "alias-map-value", "nested-array", "required-nested-message", "required-array", "required-map", "request-metadata", "sparse-tags"}}
 }
 
